@@ -141,24 +141,27 @@ def _dump_case(job):
             continue
         dig = hashlib.blake2b(s.encode("utf-8", "surrogatepass"), digest_size=8).hexdigest()
         p = os.path.join(tmpdir, "d%d_%s.lbl" % (idx, enc_name))
-        n1 = pvl.dump(m, p, encoder=enc())
-        w1 = open(p, "rb").read()
-        out.append({"ev": "dump", "target": "path/" + enc_name, "text_digest": dig,
-                    "written_digest": hashlib.blake2b(w1, digest_size=8).hexdigest() if w1 == s.encode() else "differs", "returned": n1, "length": len(s)})
-        buf = io.StringIO()
-        n2 = pvl.dump(m, buf, encoder=enc())
-        out.append({"ev": "dump", "target": "text-stream/" + enc_name, "text_digest": dig,
-                    "written_digest": hashlib.blake2b(buf.getvalue().encode("utf-8", "surrogatepass"), digest_size=8).hexdigest(), "returned": n2, "length": len(s)})
-        bbuf = io.BytesIO()
-        n3 = pvl.dump(m, bbuf, encoder=enc())
-        out.append({"ev": "dump", "target": "binary-stream/" + enc_name, "text_digest": dig,
-                    "written_digest": hashlib.blake2b(bbuf.getvalue(), digest_size=8).hexdigest(), "returned": n3, "length": len(s.encode())})
-        with open(p, "w", newline="") as f:
-            n4 = pvl.dump(m, f, encoder=enc())
-        w4 = open(p, "rb").read()
-        out.append({"ev": "dump", "target": "open-file/" + enc_name, "text_digest": dig,
-                    "written_digest": hashlib.blake2b(w4, digest_size=8).hexdigest(), "returned": n4, "length": len(s)})
-        os.unlink(p)
+
+        def target(name, call, read, length):
+            try:
+                n = call()
+                w = read()
+                wd = hashlib.blake2b(w, digest_size=8).hexdigest()
+            except Exception as e:                       # the target failed although dumps() succeeded
+                n, wd = -1, "!" + type(e).__name__
+            out.append({"ev": "dump", "target": name + "/" + enc_name, "text_digest": dig, "written_digest": wd,
+                        "returned": n if isinstance(n, int) else -2, "length": length})
+        buf, bbuf = io.StringIO(), io.BytesIO()
+        target("path", lambda: pvl.dump(m, p, encoder=enc()), lambda: open(p, "rb").read(), len(s))
+        target("text-stream", lambda: pvl.dump(m, buf, encoder=enc()), lambda: buf.getvalue().encode("utf-8", "surrogatepass"), len(s))
+        target("binary-stream", lambda: pvl.dump(m, bbuf, encoder=enc()), lambda: bbuf.getvalue(), len(s.encode()))
+
+        def to_open_file():
+            with open(p, "w", newline="") as f:
+                return pvl.dump(m, f, encoder=enc())
+        target("open-file", to_open_file, lambda: open(p, "rb").read(), len(s))
+        if os.path.exists(p):
+            os.unlink(p)
     return out
 
 
@@ -172,7 +175,8 @@ def run(ctx, rep):
                 "file must receive exactly dumps() and report its length. distinct = (label, separator, trailer); non-trivial = non-empty trailer")
     labels = [loaders.cps(c["text"]) for c in docs.emit(ctx, rep, "OMNI", "spell", 2)
               if c["lay"]["k"] == "style" and c["lay"]["sep"] == 2 and loaders.cps(c["text"]).rstrip().upper().endswith("END")
-              and "set>seq" not in loaders.features(loaders.from_tla(c["tree"]))]     # (finding F-C03-set-of-sequence)
+              and "set>seq" not in loaders.features(loaders.from_tla(c["tree"]))      # (finding F-C03-set-of-sequence)
+              and "\r" not in loaders.cps(c["text"])]   # text-mode file reads translate a lone CR (Python's universal newlines): not pvl's doing
     step = max(1, len(labels) // (400 if ctx.thorough else 40))
     labels = labels[::step]
     labels += ["a = \"café °\"\nb = 2\nEND", "kéy = 1\nEND", "x = (1, 2)\nEND",
